@@ -40,8 +40,10 @@ pub fn run(v: &serde_json::Value, rep: &mut Report) -> Result<(), String> {
             // same content: accepted only if the stored checksum still equals the original one exactly
             let orig: serde_json::Value = serde_json::from_str(&text).unwrap();
             if let Ok(j) = serde_json::from_str::<serde_json::Value>(&s) {
-                if j.get("checksum") != orig.get("checksum") || j.get("version") != orig.get("version") {
-                    rep.violation("C09", "restore.accepts_tampered_package", format!("{what}: a package whose checksum/version field was altered is accepted; faulted text = {s}"));
+                // the faulted text parses to a DIFFERENT package (some field, e.g. a stored aggregate, the checksum or
+                // the version was altered) and is nevertheless accepted
+                if j != orig {
+                    rep.violation("C09", "restore.accepts_tampered_package", format!("{what}: a package that differs from the original in some field is accepted; faulted text = {s}"));
                     return true;
                 }
             }
